@@ -3,7 +3,7 @@ CONSTANTS
   MaxBlocks = 2
   MaxReqs = 3
   Templates = {"o23", "o123", "jmp", "d3"}
-  PatchKinds = {"plain2", "plain7", "bytes"}
+  PatchKinds = {"plain2", "plain7", "bytes", "datasec"}
   FnLayouts = {"none", "one"}
   EndSyms = {FALSE}
   NoSyms = {FALSE}
